@@ -8,7 +8,7 @@ TIE_EXTRA = {
                 "GlueGen.v", "AppendGen.v", "GenerateIR.v"],
         "vo": "proofs/GenGenIR_equiv.vo",
         "theorems": ["gen_compute_cert", "gen_compute_cert_fuel", "gen_compute_cert_pres", "gen_family_compute_fragments",
-                     "gen_dense_assemble_emits_nothing", "gen_assemble_aligned", "gen_compute_aligned", "gen_assemble_aligned0", "gen_compute_aligned0", "gen_atoms_wf", "sub_align0", "gen_input_safe_unrestricted_fails", "gen_input_safe_needs_output_first", "gen_input_safe_needs_distinct_names", "gen_library_graphs_outputs", "wi_crd_assembly", "wi_pos_allocation", "wi_pos_assembly", "wi_bucket_declarations", "wi_bucket_assignment", "wi_next_output", "wi_write_assignment", "gi_sparse_init", "exhaust_ok", "wi_generate_subgraphs", "family_safe", "wi_declarations", "wi_cleanup", "gen_safe_T", "gen_safe_names_ok", "gen_inputs_untouched", "names_ok_ordinary", "names_ok_k_c08_3", "names_ok_struct", "fuel_stable", "family_mono", "generate_ir_fuel_mono", "fuel_example", "names_ok_tainted_dim", "hygienic_ordinary", "hygienic_k_c08_3", "family_EA", "family_EC", "iteration_comment", "gen_sorted_desc_perm", "gen_sorted_desc_sorted", "gen_sorted_desc_stable"],
+                     "gen_dense_assemble_emits_nothing", "gen_assemble_aligned", "gen_compute_aligned", "gen_assemble_aligned0", "gen_compute_aligned0", "gen_atoms_wf", "sub_align0", "gen_input_safe_unrestricted_fails", "gen_input_safe_needs_output_first", "gen_input_safe_needs_distinct_names", "gen_library_graphs_outputs", "wi_crd_assembly", "wi_pos_allocation", "wi_pos_assembly", "wi_bucket_declarations", "wi_bucket_assignment", "wi_next_output", "wi_write_assignment", "gi_sparse_init", "exhaust_ok", "wi_generate_subgraphs", "family_safe", "wi_declarations", "wi_cleanup", "gen_safe_T", "gen_safe_names_ok", "gen_inputs_untouched", "names_ok_ordinary", "names_ok_k_c08_3", "names_ok_struct", "gen_inputs_untouched_library", "fuel_stable", "family_mono", "generate_ir_fuel_mono", "fuel_example", "names_ok_tainted_dim", "hygienic_ordinary", "hygienic_k_c08_3", "family_EA", "family_EC", "iteration_comment", "gen_sorted_desc_perm", "gen_sorted_desc_sorted", "gen_sorted_desc_stable"],
         "source": "iteration_graph/_generate_ir.py, iteration_graph/outputs/_base.py, iteration_graph/identifiable_expression/_to_ir.py "
                   "(pinned by hash: the node classes of iteration_graph/iteration_graph.py, Context, StableFrozenSet, ir/_builder.py)",
         "model": "no hand model: theorems about the regenerated generator itself (compute_cert of proofs/Certs.v for every graph; assemble / compute = evaluate with statements dropped, for every graph)",
